@@ -8,7 +8,7 @@ def plan(tier):
                                  "custom_xclip_prefix_used", "custom_xclip_suffix_used",
                                  "custom_yclip_prefix_used", "custom_yclip_suffix_used", "custom_fully_clipped",
                                  "large_then_small_same_aligner", "big_equal_inputs", "match_score_near_the_top_of_i32", "big_inputs_with_byte_0xff", "big_equal_inputs_offdiagonal_table_global", "big_x_contained_in_y",
-                                 "big_y_contained_in_x", "small_calls_after_big_call_same_aligner", "clone_mid_history",
+                                 "big_y_contained_in_x", "small_calls_after_big_call_same_aligner", "clip_sensitive_custom_calls_right_after_big_call", "clone_mid_history",
                                  "clone_from_other_aligner", "serde_round_trip"],
         "rule": "one run = one Aligner object reused for many calls; exhaustive: all x,y over {A,C} incl. empty up "
                 "to length 2 (quick) / 3 (thorough) x gap/substitution/clip scheme grid x 4 modes; random: schemes "
